@@ -200,6 +200,36 @@ def check_point(spec, q, rng_seed=0):
 
 # ----------------------------------------------------------------------------- generators
 
+def wrapped_spec(rng):
+    """an outline that winds around a middle region three or more times in one sense: a star polygon {n/k} with k >= 3 (the middle
+    is wrapped k times) or a polygonal spiral of `turns` turns closed by a spoke; "focus" is the region wrapped most often"""
+    import math
+    cx, cy = float(rng.randint(-50, 50)), float(rng.randint(-50, 50))
+    R = float(rng.randint(300, 1200))
+    ph = rng.uniform(0, 2 * math.pi)
+    sense = rng.choice([1, -1])
+    if rng.random() < 0.7:
+        n, k = rng.choice([(7, 3), (8, 3), (9, 4), (10, 3), (11, 3), (11, 4), (11, 5), (13, 5)])
+        verts = [(cx + R * math.cos(ph + sense * 2 * math.pi * k * j / n), cy + R * math.sin(ph + sense * 2 * math.pi * k * j / n)) for j in range(n)]
+        inner = R * math.cos(math.pi * k / n)
+    else:
+        turns, per = rng.choice([3, 4, 5]), rng.choice([5, 6, 7])
+        m = turns * per
+        verts = [(cx + R * (0.45 + 0.55 * j / m) * math.cos(ph + sense * 2 * math.pi * j / per),
+                  cy + R * (0.45 + 0.55 * j / m) * math.sin(ph + sense * 2 * math.pi * j / per)) for j in range(m + 1)]
+        inner = R * 0.45 * math.cos(math.pi / per)
+    verts = [(float(round(x)), float(round(y))) for x, y in verts]
+    verts = [p for j, p in enumerate(verts) if p != verts[j - 1]]
+    return {"kind": "contour", "segs": [[verts[j], verts[(j + 1) % len(verts)]] for j in range(len(verts))], "focus": [cx, cy, 0.8 * inner]}
+
+
+def focus_query(rng, spec):
+    import math
+    cx, cy, rad = spec["focus"]
+    a, d = rng.uniform(0, 2 * math.pi), rad * math.sqrt(rng.random())
+    return (cx + d * math.cos(a), cy + d * math.sin(a))
+
+
 def rand_path_spec(rng, i):
     r = i % 8
     if r in (0, 1):
@@ -212,6 +242,8 @@ def rand_path_spec(rng, i):
             pts = [(float(rng.randint(-100, 100)), float(rng.randint(-100, 100))) for _ in range(n)]
         pts = [p for k, p in enumerate(pts) if p != pts[k - 1]]
         return {"kind": "contour", "segs": [[pts[k], pts[(k + 1) % len(pts)]] for k in range(len(pts))]}
+    if r == 6 and i % 16 == 14:
+        return wrapped_spec(rng)
     if r == 6 and i % 16 == 6:
         # a contour one of whose cubics has a horizontal inflection (y = y0 + H/2 + H/2 (2t-1)^3: control ordinates y0, y0+H, y0, y0+H):
         # the outline crosses the level of the inflection there although the tangent is exactly horizontal
@@ -317,22 +349,25 @@ def model_corr(ctx):
     lines, metas = [], []
     which = which_mode()
     for i in range(30 * ctx.scale):
-        spec = rand_path_spec(rng, 6 if i % 10 == 9 else i)
+        spec = rand_path_spec(rng, 6 if i % 10 == 9 else 14 if i % 10 == 4 else i)
         path = cc.build(spec)
         q = rand_query(rng, path, rng.randrange(10))
         if spec.get("levels"):
             b = path.bounds()
             q = (rng.uniform(b.left - 80, b.right + 80), rng.choice(spec["levels"]))     # level with a horizontal inflection (F22)
+        if spec.get("focus") and rng.random() < 0.7:
+            q = focus_query(rng, spec)
         try:
             lines.append(wire(path, q, which))
             w = path.windingNumberOfPoint(Point(*q))
+            ins = path.pointIsInside(Point(*q))
             nl, nr = ray_counts(path, q)
         except Exception as ex:
             lines.pop() if len(lines) > len(metas) else None
             lines.append("ping")
             metas.append(("exc", repr(ex), spec, q))
             continue
-        metas.append(("ok", (w, nl, nr), spec, q))
+        metas.append(("ok", (w, nl, nr, "true" if ins else "false"), spec, q))
     replies = drive.run_lines(lines)
     dis = []
     nz = 0
@@ -394,6 +429,8 @@ def search(ctx, budget):
             if spec.get("levels") and j < 4:
                 b = path.bounds()
                 q = (rng.uniform(b.left - 80, b.right + 80), rng.choice(spec["levels"]))
+            if spec.get("focus") and j < 3:
+                q = focus_query(rng, spec)
             seed = rng.randrange(1 << 30)
             inp = {"spec": spec, "q": list(q), "seed": seed}
             msg = check_point(spec, q, seed)
